@@ -177,7 +177,17 @@ class Side:
                     b, q = m.remove_liquidity(pos, liq, collect=(op[1] % 2 == 0))
                     return "ok", {"base_get": (b, "b"), "quote_get": (q, "q")}
                 if k == "collect":
-                    b, q = m.collect_fee(pos)
+                    if op[2] == "1":
+                        b, q = m.collect_fee(pos)
+                    else:
+                        # capped collect: caps stated in base / quote terms (a fraction of what is pending, or more than it)
+                        p = m.positions[pos]
+                        pb, pq = self.bq(p.pending_amount0, p.pending_amount1)
+                        cb = pb * Decimal(op[2])
+                        cq = pq * (Decimal("2") if op[3] == "100" else Decimal("0.3") if op[3] == "1" else Decimal(op[2]))
+                        c0, c1 = self.bq(cb, cq)  # the base/quote <-> token0/token1 mapping is an involution
+                        b, q = m.collect_fee(pos, c0, c1)
+                        self.capped = True
                     return "ok", {"base_get": (b, "b"), "quote_get": (q, "q")}
                 if k == "est_liq":
                     L, a0, a1 = m.estimate_liquidity(Decimal(op[3]), pos)
